@@ -40,6 +40,10 @@ BOUND = ('bodies of length 0..9 (quick) / 0..12 (thorough) over a 3-letter alpha
          'for POST through the application, and x REQUEST_METHOD in {GET,HEAD,POST,PUT,DELETE,PATCH,OPTIONS,get,head} '
          'through the application (route registered for that method) and through Request(environ) directly, the latter '
          'also with REQUEST_METHOD absent; the random cases draw the method from the same set; '
+         'declared Content-Type in {multipart/form-data with the right boundary, application/json, urlencoded, text/plain} x a two-part '
+         'multipart body with a look-alike delimiter x epilogue in {none, CRLF, text with a further delimiter} x CL in {n, n-1, up to the '
+         'closing delimiter, n+2} x max_memfile_size 1/7/18/64/4096 x 9 fragmentations (1/2/3/18-byte reads, cuts at and around the '
+         'closing delimiter) x {application handler, bare Request}; '
          'Request.copy(): payload of 1/4/9 bytes followed by 4 bytes of the next request x CL in {0,n,n+2,n+6} x max_memfile_size '
          '1/3/16 x 4 scripts x 2 tails x {application handler, bare Request} x order {original read first then copy, copy of the '
          'copy, original again; copy taken before any access and only the copies read} x max_body_size {none, 2 = refusal '
@@ -152,6 +156,19 @@ def gen_cases(tier, seed):
                             yield dict(kind='app', data=data, cl=cl, buff=buff, script=list(script), tail=tail, method=method)
                         for method in METHODS + [None]:
                             yield dict(kind='req', data=data, cl=cl, buff=buff, script=list(script), tail=tail, method=method)
+    # end to end x Content-Type: the raw body is the stream's bytes whatever the declared type says (a multipart body is marked up
+    # while it is read: closing delimiter, epilogue and the bytes after it are body bytes like all others)
+    mp = (b'--B7\r\nContent-Disposition: form-data; name="a"\r\n\r\nv1\r\n--B7\r\nContent-Disposition: form-data; name="f"; '
+          b'filename="x.bin"\r\n\r\n\x00\r\n--B\r\n--B7--')
+    for epilogue in (b'', b'\r\n', b'\r\nepilogue text after the closing delimiter\r\n--B7\r\nnot a part'):
+        data = mp + epilogue
+        for ctype in ('multipart/form-data; boundary=B7', 'application/json', 'application/x-www-form-urlencoded', 'text/plain'):
+            for cl in (len(data), len(data) - 1, len(mp), len(data) + 2):
+                for buff in ((1, 7, 18, 64, 4096) if tier == 'quick' else (1, 2, 3, 7, 17, 18, 19, 64, 4096)):
+                    for script, tail in (((), 0), ((), 1), ((), 2), ((), 3), ((), 18), ((5, 1, 40), 7), ((len(mp),), 0), ((len(mp) - 2,), 0),
+                                         ((len(mp) - 1, 1), 1)):
+                        for kind in ('req', 'app'):
+                            yield dict(kind=kind, data=data, cl=cl, buff=buff, script=list(script), tail=tail, method='POST', ctype=ctype)
     rnd = random.Random(seed + 1)
     for _ in range(300 if tier == 'quick' else 3000):
         n = rnd.randrange(0, 400)
@@ -215,6 +232,8 @@ def run_case(case):
         from ombott.request_pkg.request import Request
         method = case['method']
         env = make_environ('/b', method or 'GET', stream=stream, content_length=(None if cl < 0 else cl))
+        if case.get('ctype'):
+            env['CONTENT_TYPE'] = case['ctype']
         if method is None:
             del env['REQUEST_METHOD']
         req = Request(env, config={'max_memfile_size': buff})
@@ -241,6 +260,8 @@ def run_case(case):
         seen['input_is_copy'] = req.environ['wsgi.input'] is req.body
         return 'ok'
     env = make_environ('/b', method, stream=stream, content_length=(None if cl < 0 else cl))
+    if case.get('ctype'):
+        env['CONTENT_TYPE'] = case['ctype']
     res = serve(app, env)
     if res.code != 200:
         return fail('K3.status', status=res.status, errors=res.errors[-400:])
